@@ -33,8 +33,9 @@ class Rule:
         return d
 
     def value(self, name):
+        """Declared value as text; comments inside the value are not part of it."""
         d = self.last(name)
-        return None if d is None else tinycss2.serialize(d.value).strip()
+        return None if d is None else tinycss2.serialize([t for t in d.value if t.type != "comment"]).strip()
 
     @property
     def has_error_nodes(self):
